@@ -499,6 +499,11 @@ func (g *Gen) genFunc(depth int) *TopItem {
 	label := g.fresh("item")
 	f := &FuncDecl{Name: g.fresh("fn")}
 	sc := &scope{}
+	// top-level variables defined so far are visible
+	for _, gv := range g.globals {
+		sc.add(gv.name, gv.t)
+	}
+	sc = sc.child()
 	np := g.intn(4, "nparams")
 	for i := 0; i < np; i++ {
 		pt := g.pickDataType("paramType")
@@ -624,6 +629,9 @@ func (g *Gen) GenProgram() *Program {
 		if g.chance(1, 5, "recursiveHelper") {
 			pr.Items = append(pr.Items, g.genRecursive())
 		}
+		if !g.P.Tinyfo && g.chance(1, 4, "topVar") {
+			pr.Items = append(pr.Items, g.genTopVar())
+		}
 		it := g.genFunc(g.P.MaxDepth)
 		pr.Items = append(pr.Items, it)
 		f := g.Funcs[len(g.Funcs)-1]
@@ -673,4 +681,24 @@ func (g *Gen) GenProgramNoMain() *Program {
 		pr.Items = append(pr.Items, g.genFunc(g.P.MaxDepth-1))
 	}
 	return pr
+}
+
+// genTopVar generates a top-level `let name = expr` (a Go package variable).
+// Its initialiser is effect-free: Go runs package initialisers before main.
+func (g *Gen) genTopVar() *TopItem {
+	g.curRefs = map[string]bool{}
+	g.fuel = 8
+	label := g.fresh("item")
+	t := g.pickDataType("topVarType")
+	name := g.fresh("tv")
+	g.pure++
+	sc := &scope{}
+	for _, gv := range g.globals {
+		sc.add(gv.name, gv.t)
+	}
+	e := g.expr(sc, t, 1)
+	g.pure--
+	g.globals = append(g.globals, &varInfo{name: name, t: t, knownLen: -1})
+	g.label("top-level variable")
+	return &TopItem{Var: Let(name, e), Label: label, Refs: keys(g.curRefs)}
 }
